@@ -395,7 +395,11 @@ func c04Gen(r *rand.Rand) *c04Case {
 	}
 	marker := evasionCfg{Unix: "_eu_", Windows: "_ew_", SuffixUnix: "_su_", SuffixWindows: "_sw_", NoSpUnix: "_nu_", NoSpWindows: "_nw_"}
 	star := evasionCfg{Unix: `[\x5c'\"]*`, Windows: `[\"\^]*`, SuffixUnix: `(?:\s|<|>).*`, SuffixWindows: `(?:[\s,;]|\.|/|<|>).*`, NoSpUnix: `(?:<|>).*`, NoSpWindows: `[,;./<>].*`}
-	switch r.Intn(12) {
+	switch r.Intn(13) {
+	case 12:
+		// valid YAML, but one value has the wrong type: the file cannot be used, nothing is inserted
+		c.CfgName, c.Effective, c.Exact = "wrong-type", evasionCfg{}, true
+		c.CfgYAML = "patterns:\n  anti_evasion:\n    unix: _eu_\n    windows: _ew_\n  anti_evasion_suffix:\n    unix: |\n      _su_\n    windows:\n      - a\n      - b\n  anti_evasion_no_space_suffix:\n    unix: _nu_\n    windows: _nw_\n"
 	case 0, 1:
 		c.CfgName, c.CfgYAML, c.Effective, c.Exact = "crs", crsEvasion.yaml(), crsEvasion, true
 	case 2, 3:
@@ -430,7 +434,7 @@ func init() {
 	register(&core.Property{
 		ID:    "C04",
 		Level: "exploration",
-		Rule: "generated cmdline blocks (unix/windows; 1..5 words over letters, digits, '.', '-', '_', space, with @ / ~ / escaped markers and quote lines; bare, beside plain entries, nested in an assemble block between markers, fed through an include) x 12 configurations of toolchain.yaml (the CRS patterns, distinct literal markers per key and OS, starred classes, absent file, empty file, partial keys, invalid YAML, a directory in place of the file, another file selected with -f next to a decoy default, quoted/folded scalars with a grouped alternation) are compiled by the built CLI. " +
+		Rule: "generated cmdline blocks (unix/windows; 1..5 words over letters, digits, '.', '-', '_', space, with @ / ~ / escaped markers and quote lines; bare, beside plain entries, nested in an assemble block between markers, fed through an include) x 13 configurations of toolchain.yaml (the CRS patterns, distinct literal markers per key and OS, starred classes, absent file, empty file, partial keys, invalid YAML, valid YAML with a wrongly typed value, a directory in place of the file, another file selected with -f next to a decoy default, quoted/folded scalars with a grouped alternation) are compiled by the built CLI. " +
 			"Oracle (membership): for every word the word itself and up to 14 variants with strings inserted between adjacent characters — drawn by random walks from the configured pattern's syntax tree and validated against the plain reading of that single word with Go's regexp — must be matched by the output under search semantics; @/~ variants carry a sampled member of the configured suffix; in single-word programs the bare word (suffix demanded), the word without its escaped marker, the word without its space and the word with '.'/'-' replaced must not be matched; quote lines pass through. For concatenation-safe patterns the output is also compared exactly with the plain-reading model under the configuration in force. Non-trivial = >= 3 validated variants.",
 		Cases: func(env *core.Env, rng *rand.Rand) []core.Case {
 			n := env.N(600, 12000)
